@@ -321,7 +321,19 @@ func TestC07(t *testing.T) {
 				copy(scratch[n:cap(scratch)], "\xa5\xa5\xa5\xa5\xa5\xa5\xa5\xa5")
 				b := scratch
 				var k int
-				e := guard(func() error { var e error; k, e = c.Write(b); return e })
+				// a relay written as io.Copy(conn, backend) reaches the Conn through io.Copy's
+				// fast paths when it has any (io.ReaderFrom), otherwise through Write
+				viaCopy := rapid.IntRange(0, 2).Draw(t, "write_via_io_copy") == 0
+				e := guard(func() error {
+					if viaCopy {
+						k64, e := io.Copy(c, struct{ io.Reader }{bytes.NewReader(b)})
+						k = int(k64)
+						return e
+					}
+					var e error
+					k, e = c.Write(b)
+					return e
+				})
 				if string(scratch[n:cap(scratch)]) != "\xa5\xa5\xa5\xa5\xa5\xa5\xa5\xa5" || !bytes.Equal(scratch, bstream[bpos:bpos+n]) {
 					rp["ops"] = ops
 					ev.Violation(t, "C07", rp, "Write modified the caller's buffer (or its spare capacity)")
@@ -329,7 +341,11 @@ func TestC07(t *testing.T) {
 				for i := range scratch[:cap(scratch)] {
 					scratch[:cap(scratch)][i] = 0xee
 				}
-				ops = append(ops, fmt.Sprintf("w%d", n))
+				if viaCopy {
+					ops = append(ops, fmt.Sprintf("wcopy%d", n))
+				} else {
+					ops = append(ops, fmt.Sprintf("w%d", n))
+				}
 				if wfail >= 0 && e != nil && !isPanic(e) {
 					// the transport failed: the error surfaces, nothing beyond the failure offset
 					// (and nothing but the backend's own bytes) reached the client; the stream ends here
